@@ -159,7 +159,8 @@ def run(mod, argv=None):
             cov.update(mod.extra_coverage(cases, obs))
         except Exception:
             pass
-    vf.write_evidence(pid, tier, seed, cov, time.time() - t0, len(new_viol) + (1 if broken and not new_viol else 0), mod.ASSUMPTIONS)
+    if not a.replay:      # a replay examines one stored case: it must not replace the evidence of a full run
+        vf.write_evidence(pid, tier, seed, cov, time.time() - t0, len(new_viol) + (1 if broken and not new_viol else 0), mod.ASSUMPTIONS)
     for l in out_lines:
         print(l)
     print("%s tier=%s cases=%d oracle_fail=%d model_diff=%d obligations=%d/%d broken=%d wall=%.1fs -> exit %d" % (
